@@ -27,7 +27,7 @@ type c21Result struct {
 	outcome    string
 }
 
-func c21Body(s *verifmc.Sched, cut int64, nOrdinary int, base string, seq *int64, mu *sync.Mutex, report func(key, desc string)) string {
+func c21Body(s *verifmc.Sched, kind string, cut int64, nOrdinary int, base string, seq *int64, mu *sync.Mutex, report func(key, desc string)) string {
 	mu.Lock()
 	*seq++
 	dir := mcSubdir(base, int(*seq))
@@ -46,6 +46,15 @@ func c21Body(s *verifmc.Sched, cut int64, nOrdinary int, base string, seq *int64
 		bChain++
 	}
 	pledge := &mcDelivery{Name: "pledge", Chain: -1, Elect: common.TransactionTypeNodePledge, TsOffset: 10 * time.Second, Build: mcCrPledge("c21-pledge-fund", 0)}
+	if kind == "mint" {
+		// the consensus-class snapshot is a mint, proposed by the chain elected for mints
+		pledge = &mcDelivery{Name: "mint", Chain: -1, Elect: common.TransactionTypeMint, TailOnly: true, TsOffset: 10 * time.Second, Build: mcCrMint("c21")}
+		elected = m.Node.electSnapshotNode(common.TransactionTypeMint, pledgeTs)
+		bChain = 3
+		for m.Net.NodeIds[bChain] == elected || bChain == 2 {
+			bChain++
+		}
+	}
 	var ordinary []*mcDelivery
 	for i := 0; i < nOrdinary; i++ {
 		ordinary = append(ordinary, &mcDelivery{Name: fmt.Sprint("ordinary", i), Chain: bChain, TsOffset: time.Duration(11+i) * time.Second, Build: mcCrDepositBTC(fmt.Sprint("c21-b", i), "1")})
@@ -112,7 +121,7 @@ func c21Body(s *verifmc.Sched, cut int64, nOrdinary int, base string, seq *int64
 		if lastSnap == nil || lastSnap.PayloadHash() != pledge.Hash {
 			class = "marker-lost:ordinary-snapshot-written-after-consensus-snapshot"
 		}
-		report(class, fmt.Sprintf("consensus snapshot %s (node pledge) is durable but after restart the last recorded consensus operation is %s (timestamp %d); crash before commit %d; schedule %s", pledge.Hash, last.PayloadHash(), last.Timestamp, cut, strings.Join(s.Trace, " ")))
+		report(kind+":"+class, fmt.Sprintf("consensus snapshot %s (%s) is durable but after restart the last recorded consensus operation is %s (timestamp %d); crash before commit %d; schedule %s", pledge.Hash, kind, last.PayloadHash(), last.Timestamp, cut, strings.Join(s.Trace, " ")))
 	}
 	return out
 }
@@ -138,51 +147,50 @@ func TestMC_C21(t *testing.T) {
 	c := verifmc.Start(t, "C21", "model_checking")
 	defer c.Finish()
 	c.SetRule("workload: chain A finalizes a node-pledge (consensus-class singleton) snapshot, chain B finalizes N ordinary snapshots, both through the real cosiHandleFinalization on an on-disk store; for every crash cut k (commit k and later fail) every interleaving of the two goroutines at commit granularity up to the preemption bound; after each: close, reopen, real SetupNode, then the invariant 'consensus snapshot durable => last recorded consensus operation is it'")
-	c.Assume("a Badger transaction commit is the atomic durable unit (crash points are commit boundaries of the snapshot DB)", "commits are the only scheduling points; kernel/topology.go's sequence mutex and the store mutex are modelled by the scheduler", "the consensus-class operation exercised is a node pledge; mint/remove/custodian update share the same tail (AddSnapshot then reloadConsensusState)")
+	c.Assume("a Badger transaction commit is the atomic durable unit (crash points are commit boundaries of the snapshot DB)", "commits are the only scheduling points; kernel/topology.go's sequence mutex and the store mutex are modelled by the scheduler", "consensus-class operations exercised: node pledge (through the complete cosiHandleFinalization) and mint (through the post-validation tail: takeover lock, persist, AddSnapshot, reloadConsensusState); remove/custodian update share the pledge branch of reloadConsensusState")
 	base := mcScratchDir("c21-")
 	defer mcRemoveAll(base)
 	nOrdinary := verifmc.Pick(c, 1, 2)
 	bound := verifmc.Pick(c, 1, 2)
 
-	// probe run without cut: number of commits of the workload
 	var seq int64
 	var mu sync.Mutex
-	var total int64
-	{
-		ex := &verifmc.Explorer{C: c, Bound: 0, Name: "probe"}
-		ex.Body = func(s *verifmc.Sched, report func(key, desc string)) string {
-			return c21Body(s, 0, nOrdinary, base, &seq, &mu, report)
-		}
-		ex.Run()
-		for o := range ex.Outcomes {
-			fmt.Sscanf(o, "commits=%d", &total)
-		}
-	}
-	c.Require(total >= 8, "probe found only %d commits", total)
-	c.Set("commits_in_workload", total)
 	var execs int64
-	markerOK, markerRepaired := 0, 0
-	c.ParallelN(int(total)+1, "crash cuts", func(_, i int) {
-		cut := int64(i + 1) // 1..total+1 (total+1 = no crash)
-		ex := &verifmc.Explorer{C: c, Bound: bound, Name: fmt.Sprintf("cut=%d", cut)}
-		ex.Body = func(s *verifmc.Sched, report func(key, desc string)) string {
-			return c21Body(s, cut, nOrdinary, base, &seq, &mu, report)
-		}
-		ex.Run()
-		mu.Lock()
-		execs += ex.Executions
-		for o := range ex.Outcomes {
-			if strings.Contains(o, "sc-durable=true marker-is-sc=true") {
-				markerOK++
-				if cut <= total {
-					markerRepaired++
-				}
+	markerOK := 0
+	for _, kind := range []string{"pledge", "mint"} {
+		kind := kind
+		// probe run without cut: number of commits of the workload
+		var total int64
+		{
+			ex := &verifmc.Explorer{C: c, Bound: 0, Name: kind + ":probe"}
+			ex.Body = func(s *verifmc.Sched, report func(key, desc string)) string {
+				return c21Body(s, kind, 0, nOrdinary, base, &seq, &mu, report)
+			}
+			ex.Run()
+			for o := range ex.Outcomes {
+				fmt.Sscanf(o, "commits=%d", &total)
 			}
 		}
-		mu.Unlock()
-	})
+		c.Require(total >= 6, "%s probe found only %d commits", kind, total)
+		c.Set("commits_in_workload_"+kind, total)
+		c.ParallelN(int(total)+1, "crash cuts", func(_, i int) {
+			cut := int64(i + 1) // 1..total+1 (total+1 = no crash)
+			ex := &verifmc.Explorer{C: c, Bound: bound, Name: fmt.Sprintf("%s:cut=%d", kind, cut)}
+			ex.Body = func(s *verifmc.Sched, report func(key, desc string)) string {
+				return c21Body(s, kind, cut, nOrdinary, base, &seq, &mu, report)
+			}
+			ex.Run()
+			mu.Lock()
+			execs += ex.Executions
+			for o := range ex.Outcomes {
+				if strings.Contains(o, "sc-durable=true marker-is-sc=true") {
+					markerOK++
+				}
+			}
+			mu.Unlock()
+		})
+	}
 	c.Set("executions", execs)
-	c.Set("crash_cuts", total+1)
 	c.Set("preemption_bound", bound)
 	c.Set("ordinary_snapshots", nOrdinary)
 	c.Require(markerOK > 0, "no execution reached a durable consensus snapshot with its marker")
